@@ -92,9 +92,26 @@ def check(case: Dict[str, Any]) -> Outcome:
         for piece in chunked(data, cuts):
             es.feed(piece)
 
+    forms: List[str] = case.get("forms") or ["typed"]
+    nev = [0]
+
     def event_bytes(msg: Dict[str, Any]) -> bytes:
+        # each event on the stream takes the next form of the case's cycle: with its event type, as a bare data event (the
+        # form the transport accepts for servers that do not type their events), after a keep-alive event, after a comment
         d = json.dumps(msg, ensure_ascii=False).encode("utf-8")
-        return b"event: message" + eol + b"data: " + d + eol + eol
+        form = forms[nev[0] % len(forms)]
+        nev[0] += 1
+        typed = b"event: message" + eol + b"data: " + d + eol + eol
+        bare = b"data: " + d + eol + eol
+        if form == "bare":
+            return bare
+        if form == "keepalive-bare":
+            return b"event: keepalive" + eol + b"data: {}" + eol + eol + bare
+        if form == "comment-bare":
+            return b": ping" + eol + eol + bare
+        if form == "comment-typed":
+            return b": ping" + eol + typed
+        return typed
 
     by_id = {json.dumps(r["id"]): r for r in reqs}
     will_announce = est["kind"] in ("endpoint-event", "bare-messages", "bare-mcp", "query-only", "absolute-url", "endpoint-crlf", "delayed")
@@ -331,7 +348,9 @@ def check(case: Dict[str, Any]) -> Outcome:
     # ------------------------------------------------------------------ classes
     race = any(r["mode"] in ("202-then-event", "event-then-202", "202-then-error-event", "error-event-then-202") and r.get("delta", 0) <= 0.02 for r in reqs)
     out.nontrivial = est["kind"] != "endpoint-event" or race or bool(cuts) or exit_path != "normal"
-    out.classes = (f"est:{est['kind']}", f"exit:{exit_path}" + (":mid-request" if state.get("early_exit") and reqs else ""), "race" if race else "no-race", "chunked" if cuts else "unchunked") + tuple(sorted({"mode:" + r["mode"] for r in reqs}))
+    collide = any(strict_eq(sm["wire"].get("id"), r["id"]) for sm in srv for r in reqs if "id" in sm["wire"])
+    out.classes = (f"est:{est['kind']}", f"exit:{exit_path}" + (":mid-request" if state.get("early_exit") and reqs else ""), "race" if race else "no-race", "chunked" if cuts else "unchunked",
+                   "forms:" + ("typed-only" if set(forms) == {"typed"} else "mixed"), "server-request-id-equals-client-request-id" if collide else "ids-disjoint") + tuple(sorted({"mode:" + r["mode"] for r in reqs}))
 
     # ------------------------------------------------------------------ establishment
     t_announce = delay + est.get("get_delay", 0.0)  # the announcement cannot precede the response headers
@@ -402,6 +421,7 @@ def check(case: Dict[str, Any]) -> Outcome:
 
 # --------------------------------------------------------------------------------------- generators
 
+_FORMS = ["typed", "bare", "keepalive-bare", "comment-bare", "comment-typed"]
 _deltas = st.sampled_from([0.0, 0.0, 0.01, 0.02, 0.05, 0.2, 1.0])
 _ids = st.one_of(st.sampled_from(["a", "r-1", "123", "é"]), st.integers(0, 50))
 
@@ -429,11 +449,14 @@ def cases(draw):
         if draw(st.booleans()):
             wire = {"jsonrpc": "2.0", "method": "notifications/message", "params": {"level": "info", "data": f"n{j} é\U0001F600" + draw(st.sampled_from(["", "", "\u2028x", "\u0085y\u2029", "\x0c"]))}}
         else:
-            wire = {"jsonrpc": "2.0", "id": f"srv-{j}", "method": "roots/list"}
+            # the server numbers its own requests independently of the client: the two id spaces may overlap
+            wire = {"jsonrpc": "2.0", "id": draw(st.one_of(st.just(f"srv-{j}"), _ids)), "method": "roots/list"}
         srv.append({"dt": draw(st.sampled_from([0.0, 0.01, 0.1])), "wire": wire})
     cuts = draw(st.lists(st.integers(1, 200), max_size=5))
     exit_path = draw(st.sampled_from(["normal", "normal", "normal", "exception", "exception", "cancel", "cancel", "task-cancel"]))
     case: Dict[str, Any] = {"est": est, "timeout": T, "requests": reqs, "server_msgs": srv, "cuts": cuts, "exit": exit_path, "crlf": draw(st.booleans())}
+    if draw(st.booleans()):
+        case["forms"] = draw(st.lists(st.sampled_from(_FORMS), min_size=1, max_size=4))
     if exit_path == "cancel":
         case["cancel_at"] = draw(st.sampled_from([None, 0.0, 0.005, 0.05, 0.31, 1.0, 2.6]))
     elif exit_path == "task-cancel":
@@ -643,14 +666,38 @@ def job_cuts(col: Collector, seed: int, tier: str, shard: int, nshards: int) -> 
         col.exhaustive_parts.append("event stream with non-ASCII payloads cut at every offset 1..259 (single cut, one-byte piece) x LF/CRLF")
 
 
-JOBS = {"atheris": job_atheris, "hyp": job_hyp, "matrix": job_matrix, "loopback": job_loopback, "cuts": job_cuts}
+def job_idspaces(col: Collector, seed: int, tier: str, shard: int, nshards: int) -> None:
+    """client request ids and server request ids are independent spaces, and servers mix typed and untyped events: every
+    answering mode x a server request bearing the client's id before / after the answer x every cycle of two event forms"""
+    i = 0
+    answering = ["200-body", "202-then-event", "event-then-202", "200-body-error", "202-then-error-event", "200-json-array", "status-400-json"]
+    for mode in answering:
+        for rid in ("r-1", 7, 0):
+            for when in (0.0, 0.15, 0.4):
+                for f1 in _FORMS:
+                    for f2 in _FORMS:
+                        i += 1
+                        if i % nshards != shard:
+                            continue
+                        srv = [{"dt": when, "wire": {"jsonrpc": "2.0", "id": rid, "method": "ping"}},
+                               {"dt": 0.05, "wire": {"jsonrpc": "2.0", "method": "notifications/message", "params": {"level": "info", "data": "after"}}},
+                               {"dt": 0.3, "wire": {"jsonrpc": "2.0", "id": rid, "method": "roots/list"}}]
+                        case = {"est": {"kind": ["endpoint-event", "bare-messages", "endpoint-crlf"][i % 3]}, "timeout": 2.0,
+                                "requests": [{"id": rid, "mode": mode, "delta": 0.1}, {"id": "second", "mode": ["202-then-event", "200-body"][i % 2], "delta": 0.01}],
+                                "server_msgs": srv, "cuts": [], "exit": "normal", "crlf": bool(i % 2), "forms": [f1, f2]}
+                        col.record(case, check(case))
+    if shard == 0:
+        col.exhaustive_parts.append("7 answering modes x 3 ids x server request with the client's id at 3 instants x 25 two-form cycles of event spelling")
+
+
+JOBS = {"idspaces": job_idspaces, "atheris": job_atheris, "hyp": job_hyp, "matrix": job_matrix, "loopback": job_loopback, "cuts": job_cuts}
 
 
 def jobs(tier: str):
     if tier == "quick":
-        return [("matrix", {"shard": s, "nshards": 8}) for s in range(8)] + [("hyp", {"shard": s, "n": 120}) for s in range(8)] + [("cuts", {"shard": s, "nshards": 4}) for s in range(4)]
+        return [("matrix", {"shard": s, "nshards": 8}) for s in range(8)] + [("hyp", {"shard": s, "n": 120}) for s in range(8)] + [("cuts", {"shard": s, "nshards": 4}) for s in range(4)] + [("idspaces", {"shard": s, "nshards": 4}) for s in range(4)]
     return (
-        [("matrix", {"shard": s, "nshards": 6}) for s in range(6)] + [("hyp", {"shard": s, "n": 3000}) for s in range(6)] + [("loopback", {"shard": s, "n": 40}) for s in range(4)] + [("cuts", {"shard": s, "nshards": 4}) for s in range(4)]
+        [("matrix", {"shard": s, "nshards": 6}) for s in range(6)] + [("hyp", {"shard": s, "n": 3000}) for s in range(6)] + [("loopback", {"shard": s, "n": 40}) for s in range(4)] + [("cuts", {"shard": s, "nshards": 4}) for s in range(4)] + [("idspaces", {"shard": s, "nshards": 4}) for s in range(4)]
         + [("atheris", {"seconds": 150, "corpus": "seeded"}), ("atheris", {"seconds": 150, "corpus": "empty"})]
     )
 
